@@ -640,6 +640,25 @@ def _abort_clauses(hist, sr, prop, t_trig, trig_seq, label, exact, out):
                     .format(mh.nid, sid, t, label, t_trig)))
         else:
             if mh.is_sched:
+                # the cancellation reaches the jobs below it in that instant
+                for nid in hist.subtree_ids(mh.nid):
+                    h = hist.nodes[nid]
+                    if h.is_sched or not h.enters or h.enters[0][1] > t_trig:
+                        continue
+                    if h.exits and h.exits[0][1] < t_trig:
+                        continue
+                    if h.exits and h.exits[0][1] == t_trig and \
+                            h.exits[0][2] in ('ret', 'exc'):
+                        continue
+                    seen = h.cancel_seen[0][1] if h.cancel_seen else None
+                    if seen is None or seen > t_trig:
+                        out.append(Violation(
+                            prop, 'nested-job-not-cancelled-at-trigger',
+                            site,
+                            "{} (below nested {} of {}) was active at the {} "
+                            "at t={} but saw its cancellation at t={}".format(
+                                nid, mh.nid, sid, label, t_trig, seen)))
+                        break
                 cr = mh.cancel_req[0][1] if mh.cancel_req else None
                 if cr != t_trig:
                     out.append(Violation(
